@@ -552,7 +552,7 @@ Proof.
       assert (Hpop : pop_n (length args + 1) (rev (vs ++ [kwargs_val [(N_caller, VMacro cm cl)]]) ++ stk) [] = Some (vs ++ [kwargs_val [(N_caller, VMacro cm cl)]], stk)).
       { replace (length args + 1) with (length (vs ++ [kwargs_val [(N_caller, VMacro cm cl)]])) by (rewrite app_length; cbn [length]; lia).
         rewrite (pop_n_rev (vs ++ [kwargs_val [(N_caller, VMacro cm cl)]]) stk []), app_nil_r. reflexivity. }
-      destruct fv as [[| | | | | | |mc mcl| |g]|];
+      destruct fv as [[| | | | | | | |mc mcl| |g]|];
         try (apply errs_here; rewrite (step_at _ _ _ _ _ _ _ _ _ Hcf); cbn [exec_instr v_stk v_st]; rewrite Hpop, split_kwargs_kw, El; inversion He; reflexivity).
       * ebind He as [[v s4]|k4| |] named E4. injection He as ->.
         destruct (IHcall esc s3 mc mcl vs [(N_caller, VMacro cm cl)] _ E4 I3 Vf V1 ltac:(constructor; [exact Vcm|constructor])
